@@ -223,7 +223,7 @@ impl Property for C15 {
         vec![Box::new(RealPairs)]
     }
     fn rule(&self) -> String {
-        "cases: pairs (A, B); A is a construct-grammar program, a concatenation of closed statements, a real-world prefix cut after ';', or an arbitrary fragment soup (plus one of a few closing suffixes) that the lexer itself leaves closed - closedness is decided by the hook snapshot (initial configuration at end of input) plus 'last token is a consumed ;/statement-level comment'; B is any generated string not starting with U+FEFF; oracle: lex(A+B) == lex(A) without EOF ++ shift(lex(B)), in the macro_sep and the default feature configuration; pairs whose A is not closed are discarded (counted); distinct = distinct (A,B); non-trivial = A and B non-empty and (A not from the grammar or B contains a macro token)".into()
+        "cases: pairs (A, B); A is a construct-grammar program, a concatenation of closed statements, a real-world prefix cut after ';', or an arbitrary fragment soup (plus one of a few closing suffixes) that the lexer itself leaves closed - closedness is decided by the hook snapshot (initial configuration at end of input) plus 'last token is a consumed ;/statement-level comment'; B is any generated string not starting with U+FEFF, and for every closed A additionally three of 34 fixed state-probing continuations ('* note', 'datalines;…', '%end;', ')', …); oracle: lex(A+B) == lex(A) without EOF ++ shift(lex(B)), in the macro_sep and the default feature configuration; pairs whose A is not closed are discarded (counted); distinct = distinct (A,B); non-trivial = A and B non-empty and (A not from the grammar or B contains a macro token)".into()
     }
     fn cases(&self, tier: Tier) -> u64 {
         match tier {
@@ -250,38 +250,62 @@ impl Property for C15 {
             vd.discard = Some("B starts with a BOM");
             return vd;
         }
-        let ab = format!("{a}{b}");
-        for v in [Variant::Rel, Variant::Nosep] {
-            let (da, db, dab) = match (lex_ok(v, a), lex_ok(v, b), lex_ok(v, &ab)) {
-                (Some(x), Some(y), Some(z)) => (x, y, z),
-                _ => {
-                    vd.discard = Some("no result for A, B or A+B (C01 territory)");
-                    return vd;
+        let by_construction = matches!(case.gen, "A:gram" | "A:closed-list");
+        check_pair(a, b, by_construction, case.gen, true, &mut vd);
+        if vd.discard.is_none() && vd.violations.is_empty() && !a.is_empty() {
+            // the same A followed by continuations whose tokenization depends on lexer state that must have been reset
+            // at the boundary (statement-start heuristics, datalines detection, nesting counters, pending flags)
+            let h = a.len() + b.len();
+            for k in 0..3 {
+                let probe = PROBES[(h + k * 7) % PROBES.len()];
+                check_pair(a, probe, by_construction, case.gen, false, &mut vd);
+                if !vd.violations.is_empty() {
+                    break;
                 }
-            };
-            let by_construction = matches!(case.gen, "A:gram" | "A:closed-list");
-            if !(if by_construction { is_closed_syntactically(a, &da) } else { is_closed(a, &da) }) {
-                vd.discard = Some("A is not a closed prefix");
-                return vd;
             }
-            let mut exp = expected_concat(a, &da, &db);
-            exp.verif = dab.verif.clone();
-            exp.accessor_failures = dab.accessor_failures.clone();
-            if exp != *dab {
-                let cls = if exp.toks.iter().map(|t| (t.t, t.ch)).ne(dab.toks.iter().map(|t| (t.t, t.ch))) { "token-types" } else if exp.toks != dab.toks { "token-positions-or-payloads" } else if exp.errs != dab.errs { "errors" } else { "other" };
-                vd.violations.push(Violation::new("C15", "not-compositional", format!("not-compositional:{cls}"), format!("[{}] lex(A+B) differs from lex(A) ++ shift(lex(B)): {}", v.name(), first_diff(&exp, &dab))));
-                break;
-            }
-            if v == Variant::Rel {
-                common_labels(&db, &mut vd.labels);
-                let b_macro = db.toks.iter().any(|t| is_macro_token(t.t));
-                if b_macro {
-                    vd.label("B-has-macro-token");
-                }
-                vd.nontrivial = !a.is_empty() && !b.is_empty() && (case.gen != "A:gram" || b_macro);
-            }
+            vd.discard = None;
         }
         vd
+    }
+}
+
+/// continuations B that make leaked state visible
+const PROBES: &[&str] = &[
+    "* note 'x;", "*c;", "* a %b &c;x", "datalines;\n1 2\n;", "cards;\n%x\n;x", "%end;", "%mend;", ")", ",b)", "=1;", "%else x;", "%then y;", "%to 3;", ":", "(a,b)", "%by 2;", "x", "format x $8.;",
+    "'a'", "\"b&c\"", "/*c*/ *d;", " * e;", "%* f;", "%m(a=1)", "%let v=1;", "a=1 %do; %end;", "%put *;", "&v", "%macro n(a); %mend;", "lines4;\n;\n;;;;", "0ffx", "1e", "%str(,)", "%if 1 %then *;",
+];
+
+fn check_pair(a: &str, b: &str, by_construction: bool, gen: &'static str, primary: bool, vd: &mut Verdict) {
+    let ab = format!("{a}{b}");
+    for v in [Variant::Rel, Variant::Nosep] {
+        let (da, db, dab) = match (lex_ok(v, a), lex_ok(v, b), lex_ok(v, &ab)) {
+            (Some(x), Some(y), Some(z)) => (x, y, z),
+            _ => {
+                vd.discard = Some("no result for A, B or A+B (C01 territory)");
+                return;
+            }
+        };
+        if !(if by_construction { is_closed_syntactically(a, &da) } else { is_closed(a, &da) }) {
+            vd.discard = Some("A is not a closed prefix");
+            return;
+        }
+        let mut exp = expected_concat(a, &da, &db);
+        exp.verif = dab.verif.clone();
+        exp.accessor_failures = dab.accessor_failures.clone();
+        if exp != *dab {
+            let cls = if exp.toks.iter().map(|t| (t.t, t.ch)).ne(dab.toks.iter().map(|t| (t.t, t.ch))) { "token-types" } else if exp.toks != dab.toks { "token-positions-or-payloads" } else if exp.errs != dab.errs { "errors" } else { "other" };
+            let what = if primary { String::new() } else { format!(" with B = {b:?}") };
+            vd.violations.push(Violation::new("C15", "not-compositional", format!("not-compositional:{cls}"), format!("[{}] lex(A+B) differs from lex(A) ++ shift(lex(B)){what}: {}", v.name(), first_diff(&exp, &dab))));
+            return;
+        }
+        if v == Variant::Rel && primary {
+            common_labels(&db, &mut vd.labels);
+            let b_macro = db.toks.iter().any(|t| is_macro_token(t.t));
+            if b_macro {
+                vd.label("B-has-macro-token");
+            }
+            vd.nontrivial = !a.is_empty() && !b.is_empty() && (gen != "A:gram" || b_macro);
+        }
     }
 }
 
